@@ -6,13 +6,23 @@ INV = ["SemVerif.inv_errKinds", "SemVerif.inv_instrShapes"]
 
 COMMON = dict(claim="Correspondence (translation validation) between the real analyzer and the executable Lean model on generated programs, restricted to this property's projection, plus the Lean-defined property predicate evaluated on the implementation's own result for every case (the failing-input search). The theorem for this property is not finished yet, so the level claimed is what the run gives, not proof.", note='Trusted: the hand-written Lean model is tied to /repo only by differential testing on generated programs (generator quality bounds it) plus the regenerated tables; Rust harness, wire parser, Lean driver, tools/extract.py; the harness extension stands for all extensions.', technique="Lean 4 executable model + differential correspondence + Lean-defined predicate on the implementation result")
 
-NOT_CLAIMED = {}
+NOT_CLAIMED = {"C20": "codec model (Spec/Codec.lean) and its Rust-side round trip are the last stage of DESIGN.md §6 and are not built yet; not claimed until they are"}
 
 PROPS = {
     "C01": dict(level="translation_validation", modules=["SemVerif.Props.C01"],
                 theorems=[], profiles=[("wf", 300, 20000), ("fault1", 300, 20000), ("wild", 500, 30000)]),
     "C02": dict(level="translation_validation", modules=["SemVerif.Props.C02"],
                 theorems=[], profiles=[("wf", 600, 40000), ("wfclean", 300, 20000)]),
+    "C03": dict(level="translation_validation", modules=["SemVerif.Props.C03"],
+                theorems=[], profiles=[("wf", 500, 30000), ("wfclean", 300, 20000), ("flow", 300, 20000)]),
+    "C04": dict(level="translation_validation", modules=["SemVerif.Props.C04"],
+                theorems=[], profiles=[("wf", 500, 30000), ("wfclean", 300, 20000), ("chains", 300, 8000)]),
+    "C05": dict(level="translation_validation", modules=["SemVerif.Props.C05"],
+                theorems=[], profiles=[("flow", 400, 30000), ("wf", 150, 10000)]),
+    "C06": dict(level="translation_validation", modules=["SemVerif.Props.C06"],
+                theorems=[], profiles=[("wf", 500, 30000), ("chains", 400, 9330), ("chainsr", 200, 5000)]),
+    "C07": dict(level="translation_validation", modules=["SemVerif.Props.C07"],
+                theorems=[], profiles=[("chains", 1554, 55986), ("chainsr", 300, 20000), ("wf", 300, 20000)]),
     "C08": dict(level="translation_validation", modules=["SemVerif.Props.C08"],
                 theorems=[], profiles=[("wf", 600, 40000), ("wfclean", 300, 20000)]),
     "C09": dict(level="translation_validation", modules=["SemVerif.Props.C09"],
@@ -27,8 +37,16 @@ PROPS = {
                 theorems=[], profiles=[("wild", 800, 50000), ("loopout", 300, 10000), ("wf", 200, 10000)]),
     "C14": dict(level="translation_validation", modules=["SemVerif.Props.C14"],
                 theorems=[], profiles=[("fault1", 400, 30000), ("wild", 600, 40000)]),
+    "C15": dict(level="translation_validation", modules=["SemVerif.Props.C15"],
+                theorems=[], profiles=[("wild", 500, 30000), ("fault1", 300, 20000), ("wf", 300, 20000)]),
+    "C16": dict(level="translation_validation", modules=["SemVerif.Props.C16"],
+                theorems=[], profiles=[("perm", 300, 20000)]),
+    "C17": dict(level="translation_validation", modules=["SemVerif.Props.C17"],
+                theorems=[], profiles=[("swap", 250, 15000)]),
     "C18": dict(level="translation_validation", modules=["SemVerif.Props.C18"],
                 theorems=[], profiles=[("wf", 400, 30000), ("wild", 400, 30000), ("fault1", 200, 10000)]),
+    "C19": dict(level="translation_validation", modules=["SemVerif.Props.C19"],
+                theorems=[], profiles=[("wf", 500, 30000), ("chains", 400, 9330), ("wild", 300, 20000)]),
 }
 
 for _p in PROPS.values():
